@@ -225,9 +225,12 @@ def evs(n, env, events=None):
             env[nm] = ("P", old[1], old[2] + (v if op == "+=" else -v))
         else:
             old = env[nm]
-            env[nm] = {"+=": old + v, "-=": old - v, "*=": old * v, "/=": int(old / v) if v else 0,
-                       "%=": old - int(old / v) * v if v else 0, "|=": old | v, "&=": old & v, "^=": old ^ v,
-                       "<<=": old << v if v >= 0 else None, ">>=": old >> v if v >= 0 else None}.get(op)
+            f = {"+=": lambda: old + v, "-=": lambda: old - v, "*=": lambda: old * v,
+                 "/=": lambda: int(old / v) if v else 0, "%=": lambda: old - int(old / v) * v if v else 0,
+                 "|=": lambda: old | v, "&=": lambda: old & v, "^=": lambda: old ^ v,
+                 "<<=": lambda: old << v if 0 <= v < 128 else None,
+                 ">>=": lambda: old >> v if 0 <= v < 128 else None}.get(op)
+            env[nm] = f() if f else None
             if env[nm] is None:
                 raise Unsupported("assignment " + op)
         return env[nm]
